@@ -295,7 +295,7 @@ func init() {
 		Shards:      func(tier string) int { return 16 },
 		Run:         runC11,
 		NeedEvents:  []string{"close_events", "ordered_pairs_checked", "close_vs_close_overlaps"},
-		Assumptions: []string{"beyond the sequential quantifier, deterministic close-vs-close overlaps are driven too (a scope still being closed by another goroutine while its parent / the provider is closed) and the same order rules applied", "dependents-before-dependencies is applied to same-owner pairs (a root-scope transient built for a singleton is closed before it, as the statement's last sentence demands)", "outputs of one constructor invocation are a tie"},
+		Assumptions: []string{"beyond the sequential quantifier, deterministic close-vs-close overlaps are driven too (a scope still being closed by another goroutine while its parent / the provider is closed) and the same order rules applied", "dependents-before-dependencies is applied to same-owner pairs (a root-scope transient built for a singleton is closed before it, as the statement's last sentence demands)", "outputs of one constructor invocation are a tie", "also outside the failure-free quantifier: the instances a FAILED scope creation had already created are closed under the same order rules"},
 	})
 }
 
@@ -427,9 +427,72 @@ var C11ResolveRace func(c *eng.Ctx, next func() (int, bool))
 // MonC11Exported lets package conc apply the C11 order oracle.
 func MonC11Exported(r *Run, o *Obs) ([]Finding, int) { return MonC11(r, o) }
 
+// runC11FailedCreation: a scope whose creation fails (an initializer returns an error or panics)
+// has already created instances - for earlier initializers, or nested while the failing one's
+// arguments were built. They are closed when the creation fails, and the order rules hold for
+// them like for any other scope: reverse creation order, dependents before dependencies.
+func runC11FailedCreation(c *eng.Ctx, cr *caseRunner) {
+	specs := []*Spec{
+		// K0, K1(K0) created for the first initializer; the second initializer fails
+		{Regs: []Reg{mkReg("Leaf_K0_a", godi.Scoped), mkReg("PosB_1_1", godi.Scoped), mkReg("VoidK1", godi.Scoped), mkReg("ErrOnly0", godi.Scoped)}},
+		// created nested while the failing initializer's own arguments are built: K0, K1(K0), K2(K0,K1), K3(K0,K1,K2)
+		{Regs: []Reg{mkReg("Leaf_K0_a", godi.Scoped), mkReg("PosB_1_1", godi.Scoped), mkReg("PosB_2_3", godi.Scoped), mkReg("PosB_3_7", godi.Scoped), mkReg("ErrOnlyK2K3", godi.Scoped)}},
+		// singletons + transients + scoped mixed, three initializers, the last fails
+		{Regs: []Reg{mkReg("Leaf_K0_a", godi.Singleton), mkReg("PosB_1_1", godi.Transient), mkReg("PosB_2_3", godi.Scoped), mkReg("Leaf_S0_a", godi.Scoped), mkReg("PosB_3_7", godi.Scoped), mkReg("VoidS0", godi.Scoped), mkReg("VoidK1", godi.Scoped), mkReg("ErrOnlyK2K3", godi.Scoped)}},
+	}
+	for si, s := range specs {
+		m := NewModel(s)
+		if m.Class != ClsOK {
+			panic(fmt.Sprintf("harness fixture %d of runC11FailedCreation is not buildable: %s", si, m.Class))
+		}
+		failing := s.Regs[len(s.Regs)-1].Ctor
+		for _, kind := range []rt.FaultKind{rt.FErr, rt.FPanic} {
+			for _, where := range []string{"provider.CreateScope", "scope.CreateScope"} {
+				idx, mine := cr.next()
+				if !mine {
+					continue
+				}
+				c.R.Begin(idx)
+				// invocation 1 of the initializer belongs to the root scope (Build); 2 to the helper scope when nested
+				nth := 2
+				if where == "scope.CreateScope" {
+					nth = 3
+				}
+				r := NewRun(s, m, []rt.Fault{{Ctor: failing, Nth: nth, Kind: kind, PanicIdx: si}}, nil)
+				r.Build()
+				pairs := 0
+				if r.Built {
+					parent := 0
+					if where == "scope.CreateScope" {
+						parent = r.Do(Op{Kind: OpCreate, Scope: 0, CtxKind: 1}).NewScope
+					}
+					res := r.Do(Op{Kind: OpCreate, Scope: parent, CtxKind: 1})
+					if res.Class == "ok" {
+						c.R.Inconclusive(idx, "the planned initializer fault did not make the scope creation fail")
+					}
+					r.Finish()
+					o := Digest(r)
+					var fs []Finding
+					fs, pairs = MonC11(r, o)
+					for i := range fs {
+						fs[i].Clause = "failed-creation-" + fs[i].Clause
+						fs[i].Detail = fmt.Sprintf("%s fails because its last initializer %s: %s", where, map[rt.FaultKind]string{rt.FErr: "returns an error", rt.FPanic: "panics"}[kind], fs[i].Detail)
+					}
+					report(c, "C11", idx, r, fs)
+					c.R.Count("ordered_pairs_checked", int64(pairs))
+					c.R.Count("close_events", int64(len(o.CloseOrder)))
+					c.R.Count("failed_creation_order_cases", 1)
+				}
+				c.R.End(idx, eng.Hash("c11-failed-creation", si, int(kind), where), pairs >= 1)
+			}
+		}
+	}
+}
+
 func runC11(c *eng.Ctx) {
 	cr := &caseRunner{c: c, prop: "C11"}
 	defer func() {
+		runC11FailedCreation(c, cr)
 		if C11Concurrent != nil {
 			C11Concurrent(c, cr.next)
 		}
